@@ -1,5 +1,6 @@
 //! Runs cases on the implementation (in-process, under catch_unwind) and on the Lean
-//! driver (child process), compares the replies under a per-line projection.
+//! driver (child process), compares the replies under a per-line projection, and evaluates
+//! the relational oracles on the implementation's own replies.
 
 use crate::proto::*;
 use std::collections::BTreeSet;
@@ -16,8 +17,10 @@ pub struct Proj {
     pub r: bool,
     pub sp: bool,
     pub pc: bool,
-    /// halt int nmi im iff1 iff2
+    /// halt im iff1 iff2
     pub ctl: bool,
+    /// the request latches: int nmi
+    pub latch: bool,
     pub cyc: bool,
     /// 0: ignore, 1: hexadecimal digits only (prefix stripped), 2: exact
     pub dbg: u8,
@@ -25,12 +28,62 @@ pub struct Proj {
     pub other: bool,
     /// T lines: sleep presence + slice counter
     pub slice: bool,
+    /// special handling, see `Mode`
+    pub mode: Mode,
 }
 
-pub const FULL: Proj =
-    Proj { fmask: 0xFF, regs: true, r: true, sp: true, pc: true, ctl: true, cyc: true, dbg: 2, other: true, slice: true };
-pub const NONE: Proj =
-    Proj { fmask: 0, regs: false, r: false, sp: false, pc: false, ctl: false, cyc: false, dbg: 0, other: false, slice: false };
+#[derive(Clone, Copy, Debug, PartialEq)]
+pub enum Mode {
+    Plain,
+    /// apply the projection only when the model says the encoding is documented (doc=1)
+    DocOnly,
+    /// C04: documented => implementation T-states = Zilog's figure (zt) and = the model's
+    Timing,
+    /// C05: sentinel-ness always; on the unknown path the whole state and the diagnostic hex
+    Unknown,
+    /// BIT b,x leaves S and P/V undefined: F mask 0x53 when the model reports a BIT, else fmask
+    Flags,
+}
+
+pub const FULL: Proj = Proj {
+    fmask: 0xFF,
+    regs: true,
+    r: true,
+    sp: true,
+    pc: true,
+    ctl: true,
+    latch: true,
+    cyc: true,
+    dbg: 2,
+    other: true,
+    slice: true,
+    mode: Mode::Plain,
+};
+pub const NONE: Proj = Proj {
+    fmask: 0,
+    regs: false,
+    r: false,
+    sp: false,
+    pc: false,
+    ctl: false,
+    latch: false,
+    cyc: false,
+    dbg: 0,
+    other: false,
+    slice: false,
+    mode: Mode::Plain,
+};
+
+/// A relation between two replies of the implementation inside one case.
+#[derive(Clone, Copy, Debug)]
+pub struct Rel {
+    pub a: usize,
+    pub b: usize,
+    pub proj: Proj,
+    /// exchange IX and IY in reply `b` before comparing
+    pub swap_xy: bool,
+    pub what: &'static str,
+}
 
 pub static MISMATCH_CAP: std::sync::atomic::AtomicUsize = std::sync::atomic::AtomicUsize::new(64);
 fn cap() -> usize {
@@ -40,32 +93,37 @@ fn cap() -> usize {
 pub struct Case {
     pub cmds: Vec<Cmd>,
     pub projs: Vec<Proj>,
+    pub rels: Vec<Rel>,
     /// class label for the distinct count
     pub tag: String,
+    /// key for known_findings.txt matching
+    pub key: String,
 }
 
 impl Case {
     pub fn new(tag: String) -> Case {
-        Case { cmds: vec![], projs: vec![], tag }
+        Case { cmds: vec![], projs: vec![], rels: vec![], key: tag.clone(), tag }
     }
-    pub fn push(&mut self, c: Cmd, p: Proj) {
+    pub fn push(&mut self, c: Cmd, p: Proj) -> usize {
         self.cmds.push(c);
         self.projs.push(p);
-    }
-    pub fn script(&self) -> String {
-        self.cmds.iter().map(|c| c.line()).collect::<Vec<_>>().join("\n")
+        self.cmds.len() - 1
     }
 }
 
 #[derive(Clone, Debug)]
 pub struct Mismatch {
     pub tag: String,
+    pub key: String,
+    /// the request lines as sent to the model
     pub script: String,
     pub line_no: usize,
     pub cmd: String,
     pub imp: String,
     pub model: String,
     pub what: String,
+    /// true: the implementation contradicts an oracle evaluated on its own behaviour
+    pub oracle: bool,
 }
 
 #[derive(Default)]
@@ -77,6 +135,8 @@ pub struct Stats {
     pub panics: u64,
     pub mismatches: Vec<Mismatch>,
     pub mismatch_count: u64,
+    pub oracle_count: u64,
+    pub relations: u64,
     pub samples: Vec<String>,
 }
 
@@ -88,13 +148,15 @@ impl Stats {
         self.tags.extend(o.tags);
         self.panics += o.panics;
         self.mismatch_count += o.mismatch_count;
+        self.oracle_count += o.oracle_count;
+        self.relations += o.relations;
         for m in o.mismatches {
             if self.mismatches.len() < cap() {
                 self.mismatches.push(m);
             }
         }
         for s in o.samples {
-            if self.samples.len() < 6 {
+            if self.samples.len() < 4 {
                 self.samples.push(s);
             }
         }
@@ -105,125 +167,205 @@ fn collapse_ws(s: &str) -> String {
     s.split_whitespace().collect::<Vec<_>>().join(" ")
 }
 
-fn hexdigits_of_dbg(field: &str) -> String {
-    // field = hex-escaped text or "-"
+fn unhex_text(field: &str) -> String {
     if field == "-" {
         return String::new();
     }
     let mut txt = String::new();
-    let b = field.as_bytes();
     let mut i = 0;
-    while i + 1 < b.len() {
+    while i + 1 < field.len() {
         let v = u8::from_str_radix(&field[i..i + 2], 16).unwrap_or(b'?');
         txt.push(v as char);
         i += 2;
     }
+    txt
+}
+
+fn hexdigits_of_dbg(field: &str) -> String {
+    let txt = unhex_text(field);
     let t = txt.trim();
     let t = t.strip_prefix("0x").or_else(|| t.strip_prefix("0X")).or_else(|| t.strip_prefix('$')).unwrap_or(t);
     t.chars().filter(|c| c.is_ascii_hexdigit()).map(|c| c.to_ascii_uppercase()).collect()
 }
 
-/// Compare one reply pair under `p`; `None` = agree.
-pub fn compare(imp: &str, model: &str, p: &Proj) -> Option<String> {
+fn hb(x: &str, i: usize) -> u8 {
+    u8::from_str_radix(&x[2 * i..2 * i + 2], 16).unwrap_or(0)
+}
+
+fn extra<'a>(toks: &[&'a str], key: &str) -> Option<&'a str> {
+    toks.iter().find_map(|t| t.strip_prefix(key))
+}
+
+/// Compare two `R` lines under `p`.
+fn compare_r(a: &[&str], b: &[&str], p: &Proj) -> Option<String> {
+    if a.len() < 13 || b.len() < 13 {
+        return Some("shape".into());
+    }
+    if (hb(a[1], F) ^ hb(b[1], F)) & p.fmask != 0 {
+        return Some(format!("F under mask {:02X}", p.fmask));
+    }
+    if p.regs {
+        for i in [A, B, C, D, E, H, L, IXH, IXL, IYH, IYL, I] {
+            if hb(a[1], i) != hb(b[1], i) {
+                return Some(format!("register #{}", i));
+            }
+        }
+        for i in 0..8 {
+            let m = if i == 1 { p.fmask } else { 0xFF };
+            if (hb(a[4], i) ^ hb(b[4], i)) & m != 0 {
+                return Some(format!("alternate register #{}", i));
+            }
+        }
+    }
+    if p.r && hb(a[1], R) != hb(b[1], R) {
+        return Some("R".into());
+    }
+    if p.sp && a[2] != b[2] {
+        return Some("SP".into());
+    }
+    if p.pc && a[3] != b[3] {
+        return Some("PC".into());
+    }
+    if p.ctl && (a[5] != b[5] || a[8..11] != b[8..11]) {
+        return Some("control state".into());
+    }
+    if p.latch && a[6..8] != b[6..8] {
+        return Some("request latch".into());
+    }
+    if p.cyc && a[11] != b[11] {
+        return Some("T-states".into());
+    }
+    match p.dbg {
+        1 => {
+            if hexdigits_of_dbg(a[12]) != hexdigits_of_dbg(b[12]) {
+                return Some("diagnostic hex".into());
+            }
+        }
+        2 => {
+            if a[12] != b[12] {
+                return Some("diagnostic text".into());
+            }
+        }
+        _ => {}
+    }
+    // trailing fields: T lines carry <sleep> <counter>, SP16 lines carry <pair value>
+    let ta: Vec<&&str> = a[13..].iter().filter(|t| !t.contains('=')).collect();
+    let tb: Vec<&&str> = b[13..].iter().filter(|t| !t.contains('=')).collect();
+    if p.slice && ta.len() == 2 && tb.len() == 2 {
+        if (*ta[0] == "-") != (*tb[0] == "-") {
+            return Some("sleep request".into());
+        }
+        if ta[1] != tb[1] {
+            return Some("slice counter".into());
+        }
+    }
+    if p.other && ta.len() == 1 && tb.len() == 1 && ta[0] != tb[0] {
+        return Some("pair value".into());
+    }
+    None
+}
+
+/// Compare the implementation's reply with the model's under `p`; `None` = agree.
+/// Returns (what, is_oracle).
+pub fn compare(imp: &str, model: &str, p: &Proj) -> Option<(String, bool)> {
     if imp == "SKIP" {
         return None;
     }
     if imp.starts_with("PANIC") {
-        // an abort is an observable outcome; the model's `PANIC` (host utilities) carries no message
-        return if model.starts_with("PANIC") { None } else { Some("abort".into()) };
+        return if model.starts_with("PANIC") { None } else { Some(("abort".into(), true)) };
     }
     if imp.starts_with("R ") && model.starts_with("R ") {
         let a: Vec<&str> = imp.split(' ').collect();
         let b: Vec<&str> = model.split(' ').collect();
-        if a.len() != b.len() || a.len() < 13 {
-            return Some("shape".into());
+        if a.len() < 13 || b.len() < 13 {
+            return Some(("shape".into(), false));
         }
-        let ra = a[1].as_bytes();
-        let rb = b[1].as_bytes();
-        let byte = |x: &[u8], i: usize| u8::from_str_radix(std::str::from_utf8(&x[2 * i..2 * i + 2]).unwrap(), 16).unwrap();
-        if (byte(ra, F) ^ byte(rb, F)) & p.fmask != 0 {
-            return Some(format!("F under mask {:02X}", p.fmask));
-        }
-        if p.regs {
-            for i in [A, B, C, D, E, H, L, IXH, IXL, IYH, IYL, I] {
-                if byte(ra, i) != byte(rb, i) {
-                    return Some(format!("register #{}", i));
+        let doc = extra(&b, "doc=") == Some("1");
+        match p.mode {
+            Mode::Plain => compare_r(&a, &b, p).map(|w| (w, false)),
+            Mode::DocOnly => {
+                if doc {
+                    compare_r(&a, &b, p).map(|w| (w, false))
+                } else {
+                    None
                 }
             }
-            let ta = a[4].as_bytes();
-            let tb = b[4].as_bytes();
-            for i in 0..8 {
-                let m = if i == 1 { p.fmask } else { 0xFF };
-                if (byte(ta, i) ^ byte(tb, i)) & m != 0 {
-                    return Some(format!("alternate register #{}", i));
+            Mode::Flags => {
+                let is_bit = extra(&b, "cls=") == Some("bit");
+                let q = Proj { fmask: if is_bit { p.fmask & 0x53 } else { p.fmask }, ..*p };
+                if doc {
+                    compare_r(&a, &b, &q).map(|w| (w, false))
+                } else {
+                    None
+                }
+            }
+            Mode::Timing => {
+                if !doc {
+                    return None;
+                }
+                if let Some(zt) = extra(&b, "zt=") {
+                    if zt != "-" && zt != a[11] {
+                        return Some((format!("T-states {} but Zilog publishes {}", a[11], zt), true));
+                    }
+                }
+                if a[11] != b[11] {
+                    return Some(("T-states".into(), false));
+                }
+                None
+            }
+            Mode::Unknown => {
+                let sentinel_m = b[11] == "255";
+                let sentinel_i = a[11] == "255";
+                if sentinel_m != sentinel_i {
+                    return Some((
+                        format!("reported-unknown={} but the instruction set says {}", sentinel_i, sentinel_m),
+                        false,
+                    ));
+                }
+                if sentinel_m {
+                    compare_r(&a, &b, p).map(|w| (format!("unknown path: {}", w), false))
+                } else {
+                    None
                 }
             }
         }
-        if p.r && byte(ra, R) != byte(rb, R) {
-            return Some("R".into());
+    } else if !p.other {
+        None
+    } else if imp.starts_with("A ") {
+        if collapse_ws(imp) == collapse_ws(model) {
+            None
+        } else {
+            Some(("disassembly".into(), false))
         }
-        if p.sp && a[2] != b[2] {
-            return Some("SP".into());
-        }
-        if p.pc && a[3] != b[3] {
-            return Some("PC".into());
-        }
-        if p.ctl && a[5..11] != b[5..11] {
-            return Some("control state".into());
-        }
-        if p.cyc && a[11] != b[11] {
-            return Some("T-states".into());
-        }
-        match p.dbg {
-            1 => {
-                if hexdigits_of_dbg(a[12]) != hexdigits_of_dbg(b[12]) {
-                    return Some("diagnostic hex".into());
-                }
-            }
-            2 => {
-                if a[12] != b[12] {
-                    return Some("diagnostic text".into());
-                }
-            }
-            _ => {}
-        }
-        if p.slice && a.len() >= 15 {
-            if (a[13] == "-") != (b[13] == "-") {
-                return Some("sleep request".into());
-            }
-            if a[14] != b[14] {
-                return Some("slice counter".into());
-            }
-        }
-        return None;
-    }
-    if !p.other {
-        return None;
-    }
-    if imp.starts_with("A ") {
-        return if collapse_ws(imp) == collapse_ws(model) { None } else { Some("disassembly".into()) };
-    }
-    if imp == model {
+    } else if imp == model {
         None
     } else {
-        Some("reply".into())
+        Some(("reply".into(), false))
     }
+}
+
+fn swap_xy_reply(r: &str) -> String {
+    // R <regs28> ...: bytes 8,9 (IX) <-> 10,11 (IY)
+    let mut t: Vec<String> = r.split(' ').map(|s| s.to_string()).collect();
+    if t.len() > 1 && t[1].len() == 28 {
+        let x = t[1].clone();
+        t[1] = format!("{}{}{}{}", &x[0..16], &x[20..24], &x[16..20], &x[24..28]);
+    }
+    t.join(" ")
 }
 
 /// does the reply differ from the start state in something compared (non-triviality)?
 fn nontrivial(first_s: Option<&St>, replies: &[String]) -> bool {
     let Some(s) = first_s else { return true };
     let start = s.regctl_text();
+    let b: Vec<&str> = start.split(' ').collect();
     for r in replies {
         if let Some(rest) = r.strip_prefix("R ") {
-            // compare everything but PC
             let a: Vec<&str> = rest.split(' ').collect();
-            let b: Vec<&str> = start.split(' ').collect();
             if a.len() >= 10 && b.len() >= 10 {
                 if a[0] != b[0] || a[1] != b[1] || a[3..10] != b[3..10] {
                     return true;
                 }
-                // a non-sequential PC change also counts
                 let pa = u16::from_str_radix(a[2], 16).unwrap_or(0);
                 let pb = u16::from_str_radix(b[2], 16).unwrap_or(0);
                 if pa.wrapping_sub(pb) > 4 {
@@ -239,7 +381,7 @@ fn nontrivial(first_s: Option<&St>, replies: &[String]) -> bool {
     false
 }
 
-fn run_driver(drv: &str, input: String) -> Vec<String> {
+pub fn run_driver(drv: &str, input: String) -> Vec<String> {
     let mut child = Command::new(drv).stdin(Stdio::piped()).stdout(Stdio::piped()).spawn().expect("spawn z80drv");
     let mut stdin = child.stdin.take().unwrap();
     let w = std::thread::spawn(move || {
@@ -252,25 +394,42 @@ fn run_driver(drv: &str, input: String) -> Vec<String> {
     out.lines().map(|s| s.to_string()).collect()
 }
 
+struct Ran {
+    /// per command: the (driver line, implementation reply) pairs it expanded to
+    lines: Vec<Vec<(String, String)>>,
+}
+
 /// Run a chunk of cases: implementation in-process, model in the driver.
 pub fn run_chunk(drv: &str, tmpdir: &str, cases: &[Case]) -> Stats {
     let mut st = Stats::default();
     let mut imp = Imp::new(tmpdir);
     let mut input = String::new();
-    let mut imp_replies: Vec<Vec<String>> = Vec::with_capacity(cases.len());
+    let mut ran: Vec<Ran> = Vec::with_capacity(cases.len());
     for c in cases {
-        let mut replies = Vec::with_capacity(c.cmds.len());
+        let mut lines = Vec::with_capacity(c.cmds.len());
         let mut dead = false;
         for cmd in &c.cmds {
-            input.push_str(&cmd.line());
-            input.push('\n');
             if dead {
-                replies.push("SKIP".to_string());
+                // keep the model in step where the line is known statically
+                let l = cmd.line();
+                if l != "<runtime>" {
+                    input.push_str(&l);
+                    input.push('\n');
+                    lines.push(vec![(l, "SKIP".to_string())]);
+                } else {
+                    lines.push(vec![]);
+                }
                 continue;
             }
-            let r = std::panic::catch_unwind(std::panic::AssertUnwindSafe(|| imp.exec(cmd)));
+            let r = std::panic::catch_unwind(std::panic::AssertUnwindSafe(|| imp.exec_lines(cmd)));
             match r {
-                Ok(s) => replies.push(s),
+                Ok(v) => {
+                    for (l, _) in &v {
+                        input.push_str(l);
+                        input.push('\n');
+                    }
+                    lines.push(v);
+                }
                 Err(e) => {
                     let msg = if let Some(s) = e.downcast_ref::<String>() {
                         s.clone()
@@ -279,14 +438,18 @@ pub fn run_chunk(drv: &str, tmpdir: &str, cases: &[Case]) -> Stats {
                     } else {
                         "?".into()
                     };
-                    replies.push(format!("PANIC {}", msg));
+                    let l = cmd.line();
+                    let l = if l == "<runtime>" { "X".to_string() } else { l };
+                    input.push_str(&l);
+                    input.push('\n');
+                    lines.push(vec![(l, format!("PANIC {}", msg))]);
                     st.panics += 1;
                     dead = true;
                     imp = Imp::new(tmpdir);
                 }
             }
         }
-        imp_replies.push(replies);
+        ran.push(Ran { lines });
     }
     let model = run_driver(drv, input);
     let mut k = 0;
@@ -294,33 +457,91 @@ pub fn run_chunk(drv: &str, tmpdir: &str, cases: &[Case]) -> Stats {
         st.cases += 1;
         st.tags.insert(c.tag.clone());
         let first_s = c.cmds.iter().find_map(|x| if let Cmd::S(s) = x { Some(&**s) } else { None });
-        if nontrivial(first_s, &imp_replies[ci]) {
+        let flat: Vec<String> = ran[ci].lines.iter().flatten().map(|x| x.1.clone()).collect();
+        let script = || ran[ci].lines.iter().flatten().map(|x| x.0.clone()).collect::<Vec<_>>().join("\n");
+        if nontrivial(first_s, &flat) {
             st.nontrivial.insert(c.tag.clone());
         }
-        if st.samples.len() < 3 && ci % 97 == 0 {
-            st.samples.push(format!("{} => {}", c.script().replace('\n', " ; "), imp_replies[ci].join(" ; ")));
+        if st.samples.len() < 2 && ci % 131 == 7 {
+            st.samples.push(format!("{} => {}", script().replace('\n', " ; "), flat.join(" ; ")));
         }
         let mut reported = false;
-        for (li, cmd) in c.cmds.iter().enumerate() {
-            st.lines += 1;
-            let m = model.get(k).map(|s| s.as_str()).unwrap_or("<missing>");
-            k += 1;
-            if reported {
-                continue;
+        let mut ln = 0;
+        for (li, exp) in ran[ci].lines.iter().enumerate() {
+            for (line, reply) in exp {
+                st.lines += 1;
+                let m = model.get(k).map(|s| s.as_str()).unwrap_or("<missing>");
+                k += 1;
+                ln += 1;
+                if reported {
+                    continue;
+                }
+                if let Some((what, oracle)) = compare(reply, m, &c.projs[li]) {
+                    st.mismatch_count += 1;
+                    if oracle {
+                        st.oracle_count += 1;
+                    }
+                    reported = true;
+                    if st.mismatches.len() < cap() {
+                        st.mismatches.push(Mismatch {
+                            tag: c.tag.clone(),
+                            key: c.key.clone(),
+                            script: script(),
+                            line_no: ln - 1,
+                            cmd: line.clone(),
+                            imp: reply.clone(),
+                            model: m.to_string(),
+                            what,
+                            oracle,
+                        });
+                    }
+                }
             }
-            if let Some(what) = compare(&imp_replies[ci][li], m, &c.projs[li]) {
-                st.mismatch_count += 1;
-                reported = true;
-                if st.mismatches.len() < cap() {
-                    st.mismatches.push(Mismatch {
-                        tag: c.tag.clone(),
-                        script: c.script(),
-                        line_no: li,
-                        cmd: cmd.line(),
-                        imp: imp_replies[ci][li].clone(),
-                        model: m.to_string(),
-                        what,
-                    });
+        }
+        // relational oracles on the implementation's own replies
+        for rel in &c.rels {
+            st.relations += 1;
+            let la = ran[ci].lines.get(rel.a).and_then(|v| v.last());
+            let lb = ran[ci].lines.get(rel.b).and_then(|v| v.last());
+            let (Some(la), Some(lb)) = (la, lb) else { continue };
+            if la.1 == "SKIP" || lb.1 == "SKIP" || la.1.starts_with("PANIC") || lb.1.starts_with("PANIC") {
+                continue; // aborts are reported by the line comparison
+            }
+            if rel.swap_xy {
+                // the relation only speaks about pairs that are both implemented
+                let unk = |r: &str| r.split(' ').nth(11) == Some("255");
+                if unk(&la.1) || unk(&lb.1) {
+                    continue;
+                }
+            }
+            let rb = if rel.swap_xy { swap_xy_reply(&lb.1) } else { lb.1.clone() };
+            let bad = if la.1.starts_with("R ") {
+                let a: Vec<&str> = la.1.split(' ').collect();
+                let b: Vec<&str> = rb.split(' ').collect();
+                compare_r(&a, &b, &rel.proj)
+            } else if la.1 == rb {
+                None
+            } else {
+                Some("reply".into())
+            };
+            if let Some(w) = bad {
+                if !reported {
+                    st.mismatch_count += 1;
+                    st.oracle_count += 1;
+                    reported = true;
+                    if st.mismatches.len() < cap() {
+                        st.mismatches.push(Mismatch {
+                            tag: c.tag.clone(),
+                            key: c.key.clone(),
+                            script: script(),
+                            line_no: rel.b,
+                            cmd: format!("relation {} between replies of commands #{} and #{}", rel.what, rel.a, rel.b),
+                            imp: rb,
+                            model: la.1.clone(),
+                            what: format!("{}: {}", rel.what, w),
+                            oracle: true,
+                        });
+                    }
                 }
             }
         }
@@ -334,7 +555,7 @@ pub fn run_cases(drv: &str, tmpdir: &str, cases: Vec<Case>, threads: usize) -> S
     if cases.is_empty() {
         return total;
     }
-    let chunk = ((cases.len() + threads - 1) / threads).clamp(1, 4000);
+    let chunk = ((cases.len() + threads - 1) / threads).clamp(1, 3000);
     let chunks: Vec<&[Case]> = cases.chunks(chunk).collect();
     let next = std::sync::atomic::AtomicUsize::new(0);
     let results = std::sync::Mutex::new(Vec::new());
@@ -356,10 +577,4 @@ pub fn run_cases(drv: &str, tmpdir: &str, cases: Vec<Case>, threads: usize) -> S
         total.merge(r);
     }
     total
-}
-
-/// Sweep request: ask the driver for the model's hashes of the named sweep, all 256 blocks.
-pub fn driver_sweep(drv: &str, name: &str, blocks: &[u8]) -> Vec<String> {
-    let input: String = blocks.iter().map(|b| format!("SW {} {:02X}\n", name, b)).collect();
-    run_driver(drv, input)
 }
